@@ -1,6 +1,6 @@
 SPECIFICATION Spec
 CONSTANTS
   MaxOps = 2
-  Tables = {1, 2, 3}
+  Tables = {1, 2, 3, 4}
   WorldSel = {1, 2, 3, 4, 5, 6, 7, 8, 9, 10}
 INVARIANTS EmitWorld Emit
